@@ -487,7 +487,7 @@ fn client_case(rng: &mut Rng, ctx: &mut Ctx, _idx: u64) {
     let mut client = if rng.bool() { client.clone() } else { client };
     let nreq = if matches!(shape, Shape::ClientStream | Shape::Bidi) { rng.urange(0, 3) } else { 1 };
     let req_msgs: Vec<Msg> = (0..nreq).map(|i| Msg { data: rng.payload_of(&[0usize, 30, 500]), seq: i as u64 + 1, tag: String::new() }).collect();
-    let spec = CallSpec { id: "cli".into(), shape, req_msgs: req_msgs.clone(), req_meta: vec![], req_pend: vec![], req_gaps_ms: vec![], timeout: None };
+    let spec = CallSpec { id: "cli".into(), shape, req_msgs: req_msgs.clone(), req_meta: vec![], req_pend: vec![], req_gaps_ms: vec![], timeout: None, pingpong: None };
     let mut ex = Exec::new();
     let view = match ex.block_on(100_000, do_call(&mut client, &spec, None)) {
         Out::Done(v) => v,
